@@ -24,6 +24,14 @@ def main():
     for case in data['cases']:
         sub = Submission(files=dict(case['files']), main_file='answer.py')
         contextualize_report(sub)
+        R = MAIN_REPORT
+        rkw = {}
+        if case.get('own_report'):
+            # the grading happens on a report of its own; the global report is somebody else's
+            from pedal.core.report import Report
+            R = Report()
+            contextualize_report(Submission(files=dict(case['files']), main_file='answer.py'), report=R)
+            rkw = {'report': R}
         grader = []
         if case.get('grader_patches'):
             # the grading script has patches of its own in force around the sandbox calls (its own capture of stdout, a fake
@@ -35,8 +43,8 @@ def main():
             for g in grader:
                 g.start()
         amb_stdout, amb_sleep = sys.stdout, time.sleep
-        S.clear_sandbox()
-        sb = S.get_sandbox()
+        S.clear_sandbox(**rkw)
+        sb = S.get_sandbox(**rkw)
         for name, attrs in case.get('mocks', []):
             # an instructor set-up: the student's `import <name>` gets this stand-in
             sb.mock_module(name, dict(attrs))
@@ -46,7 +54,8 @@ def main():
         steps = []
         for st in case['steps']:
             before = globals_snapshot()
-            n_fb = len(MAIN_REPORT.feedback) + len(MAIN_REPORT.ignored_feedback)
+            n_fb = len(R.feedback) + len(R.ignored_feedback)
+            n_main = len(MAIN_REPORT.feedback) + len(MAIN_REPORT.ignored_feedback)
             escaped = None
             ret = None
             if st.get('tracer'):
@@ -54,6 +63,7 @@ def main():
             t0 = time.time()
             try:
                 kw = {'threaded': True} if st.get('threaded') else {}
+                kw.update(rkw)
                 if st.get('inputs') is not None and st['entry'] in ('run', 'runcode', 'call'):
                     kw['inputs'] = list(st['inputs'])
                 if st.get('nested'):
@@ -76,7 +86,7 @@ def main():
                 escaped = type(e).__name__
             dt = time.time() - t0
             after = globals_snapshot()
-            fbs = (MAIN_REPORT.feedback + MAIN_REPORT.ignored_feedback)
+            fbs = (R.feedback + R.ignored_feedback)
             new = fbs[n_fb:]
             runtime = [f for f in new if f.category == 'runtime']
             exc = sb.exception
@@ -95,6 +105,7 @@ def main():
                 'modules_removed': [m for m in before['modules'] if m not in after['modules']],
                 'patch_depth': len(sb._current_patches), 'stdout_depth': len(sb._current_stdout),
                 'raw_output': sb.raw_output[-200:], 'wall': round(dt, 3),
+                'stray_on_main_report': 0 if R is MAIN_REPORT else len(MAIN_REPORT.feedback) + len(MAIN_REPORT.ignored_feedback) - n_main,
             })
             # do not let a leak poison the following steps' observations: restore by hand and note it
             if sys.stdout is not amb_stdout or time.sleep is not amb_sleep or sb._current_patches or sb._current_stdout:
